@@ -20,7 +20,10 @@ def check_type_agree(ctx):
     """Producer/consumer agreement on the data component."""
     prog = ctx.prog
     rc = prog.func(CACHE + '.read_cached_file')
-    tr = Table(prog, rc)
+    from ..dte import inline_helpers
+    tr = Table(prog, rc, inline=inline_helpers(
+        prog, modules={CACHE}, exclude={CACHE + '.delete_cached_file'}),
+        max_depth=4)
     kinds = {}
     for p in tr.paths:
         if p.outcome.kind != 'return' or p.outcome.expr is None:
@@ -172,7 +175,10 @@ def check_load_first(ctx):
 def check_stale(ctx):
     prog = ctx.prog
     rc = prog.func(CACHE + '.read_cached_file')
-    t = Table(prog, rc)
+    from ..dte import inline_helpers
+    t = Table(prog, rc, inline=inline_helpers(
+        prog, modules={CACHE}, exclude={CACHE + '.delete_cached_file'}),
+        max_depth=4)
     W = ctx.where(rc.module, rc.node)
     cache_p, file_p = rc.params[0], rc.params[1]
     force_p = rc.params[2] if len(rc.params) > 2 else None
@@ -191,10 +197,16 @@ def check_stale(ctx):
     def classify(p):
         if p.outcome.kind == 'raise':
             return 'raise'
-        e = t.expand(p.outcome.expr) if p.outcome.expr is not None else None
+        raw = p.outcome.expr
+        e = t.expand(raw) if raw is not None else None
         if isinstance(e, ast.Tuple) and len(e.elts) == 2 and is_const(
                 e.elts[0]):
             return 'reloaded' if e.elts[0].value else 'cached'
+        if isinstance(raw, ast.Tuple) and len(raw.elts) == 2:
+            # a computed flag: what the conditions of the path make of it
+            tr = t.truth(p, raw.elts[0])
+            if tr is not None:
+                return 'reloaded' if tr else 'cached'
         return 'other'
 
     cases = {'empty cache entry': 'reloaded',
@@ -295,7 +307,7 @@ def check_dir_mtime(ctx):
     path_p = f.params[-1]
     t = Table(prog, f, inline=inline_helpers(
         prog, modules={POLICY}, exclude={r.load_rules.qual, r.loader.qual}),
-        max_depth=4)
+        max_depth=4, split_returns=True)
     en = t.en
 
     def is_getmtime(x):
